@@ -256,29 +256,24 @@ func (t *HHWheelTimer) addNode(node *WheelTimerNode) {
 	var ticks = node.deadline - t.tickTime
 	if ticks < 0 {
 		ticks = 0
+	} else if ticks > math.MaxUint32 {
+		ticks = math.MaxUint32
 	}
-	var idx uint32
-	if n := int64(t.currTick)+ticks; n > math.MaxUint32 {
-		idx = math.MaxUint32
-	} else {
-		idx = uint32(n)
-	}
+	// the wheel level is chosen by the remaining ticks, the slot within the
+	// level by the bits of the absolute expiry tick (which wraps with currTick)
+	var expires = t.currTick + uint32(ticks)
 
 	var bucket *WheelTimerBucket
-	if idx < TVR_SIZE {
-		bucket = &t.near[idx]
+	if ticks < TVR_SIZE {
+		bucket = &t.near[expires&TVR_MASK]
 	} else if ticks < 1<<(TVR_BITS+TVN_BITS) {
-		idx = (idx >> (TVR_BITS)) & TVN_MASK
-		bucket = &t.tvec[0][idx]
+		bucket = &t.tvec[0][(expires>>TVR_BITS)&TVN_MASK]
 	} else if ticks < 1<<(TVR_BITS+2*TVN_BITS) {
-		idx = (idx >> (TVR_BITS + TVN_BITS)) & TVN_MASK
-		bucket = &t.tvec[1][idx]
+		bucket = &t.tvec[1][(expires>>(TVR_BITS+TVN_BITS))&TVN_MASK]
 	} else if ticks < 1<<(TVR_BITS+3*TVN_BITS) {
-		idx = (idx >> (TVR_BITS + 2*TVN_BITS)) & TVN_MASK
-		bucket = &t.tvec[2][idx]
+		bucket = &t.tvec[2][(expires>>(TVR_BITS+2*TVN_BITS))&TVN_MASK]
 	} else {
-		idx = (idx >> (TVR_BITS + 3*TVN_BITS)) & TVN_MASK
-		bucket = &t.tvec[3][idx]
+		bucket = &t.tvec[3][(expires>>(TVR_BITS+3*TVN_BITS))&TVN_MASK]
 	}
 	bucket.addNode(node)
 }
